@@ -220,16 +220,26 @@ func TestVerifC42Dst(t *testing.T) {
 	// life cycle of the substituted values: histories of reloads on a real Manager (zz_verif_c42life_test.go)
 	lr := vNewRand(vSeed() + 424243)
 	specs := vC42LifeDirected()
-	for want := len(specs) + n/6; len(specs) < want; {
+	extraLife := n / 6
+	if extraLife > 2500 {
+		extraLife = 2500 // thorough tier: a history is about 2 kB of Gallina
+	}
+	for want := len(specs) + extraLife; len(specs) < want; {
 		specs = append(specs, vC42LifeRandom(lr))
 	}
+	discarded := 0
 	for _, sp := range specs {
 		coq, desc, class, nontrivial, err := vC42LifeRunSpec(sp)
+		if err == errVC42LifeDiscard {
+			discarded++
+			continue
+		}
 		if err != nil {
 			t.Fatal(err)
 		}
 		out.Case(coq, desc, class, nontrivial)
 	}
+	out.extra["discarded_histories"] = discarded
 }
 
 type vC42W struct {
